@@ -332,11 +332,32 @@ def gen_abmd(r, k, T):
 
 # ------------------------------------------------------------------------------------------------ ALB
 def gen_alb(r, k, T):
-    cfg = cv_block(0, width=1.0)
-    B = ["alb {", "  name a", "  colvars v0", "  centers %r" % V.dyadic(r, 0.5, 2, bits=2),
-         "  updateFrequency %d" % r.choice([4, 6, 8, 10, 12, 14]), "  forceRange 2.0", "}"]
-    return {"fam": "alb", "tags": ["alb"], "sigtags": [], "natoms": 1, "setup": ["temperature 300.0"], "config": cfg + B, "it0": 0,
-            "pos": walk(r, T, 1, lo=0.5, hi=4, bits=3)}
+    w = r.choice([1.0, 0.5, 2.0])
+    cfg = cv_block(0, width=w)
+    cen = V.dyadic(r, 0.5, 2, bits=2)
+    uf = r.choice([4, 6, 8, 10, 12, 14])
+    rng = r.choice([2.0, 1.0, 0.5])
+    temp = 300.0
+    B = ["alb {", "  name a", "  colvars v0", "  centers %r" % cen, "  updateFrequency %d" % uf, "  forceRange %r" % rng]
+    tags = ["alb", "freq=%d" % uf]
+    M = {"center": cen, "width": w, "freq": uf // 2, "kT": temp * KB, "range0": rng, "maxrate": rng / (10.0 * float(uf // 2)),
+         "hard": True, "k0": 0.0}
+    if r.random() < 0.3:
+        B.append("  hardForceRange off")
+        M["hard"] = False
+        tags.append("soft-range")
+    if r.random() < 0.3:
+        k0 = r.choice([0.5, -0.25, 1.0])
+        B.append("  forceConstant %r" % k0)
+        M["k0"] = k0
+        tags.append("k0")
+    if r.random() < 0.3:
+        mr = r.choice([0.125, 0.03125])
+        B.append("  rateMax %r" % mr)
+        M["maxrate"] = mr
+    B.append("}")
+    return {"fam": "alb", "tags": tags, "sigtags": [], "natoms": 1, "setup": ["temperature %r" % temp], "config": cfg + B,
+            "it0": first_step(r, [0, 0, 3]), "pos": walk(r, T, 1, lo=0.5, hi=4, bits=3), "model": M}
 
 
 # ------------------------------------------------------------------------------------------------ ABF
